@@ -1,6 +1,6 @@
 """Unit `expr`: the three implementations of the parenthesis rule (C05), skeleton preservation of the
 expression spine (C02), `- -x` (C01.3). Real text of src/formatters/expression.rs."""
-from gen import Unit, Fn, Item, Raw, RawFile, Hole, After, Before, Loop, Between
+from gen import Unit, Fn, Item, Raw, RawFile, Hole, After, Before, Loop, Between, HoistClosure
 from common import *
 
 SPEC_EXPR = r"""
@@ -54,8 +54,9 @@ def items():
            note="line facts (class A): a node one of whose tokens carries a line comment contains comments"),
         Item(GEN, "enum", "EndTokenType"),
         Fn(GEN, "format_contained_span", mode="stub"),
-        Fn(GEN, "format_token_reference", mode="stub", contract="ensures leaf_safe(Expression::Number(r)), leaf_safe(Expression::String(r)), leaf_safe(Expression::Symbol(r)), tok_of(r) == tok_of(*token_reference), token_type_of(tr_token(*token_reference)) is Symbol ==> tr_token(r) == tr_token(*token_reference), token_type_of(tr_token(r)) is Symbol ==> token_type_of(tr_token(*token_reference)) is Symbol, is_bracket_tok(r) == is_bracket_tok(*token_reference),"),
-        Fn(GEN, "format_symbol", mode="stub"),
+        Fn(GEN, "format_token_reference", mode="stub", contract="ensures tok_open(r) ==> tok_open(*token_reference), leaf_safe(Expression::Number(r)), leaf_safe(Expression::String(r)), leaf_safe(Expression::Symbol(r)), tok_of(r) == tok_of(*token_reference), token_type_of(tr_token(*token_reference)) is Symbol ==> tr_token(r) == tr_token(*token_reference), token_type_of(tr_token(r)) is Symbol ==> token_type_of(tr_token(*token_reference)) is Symbol, is_bracket_tok(r) == is_bracket_tok(*token_reference),"),
+        Fn(GEN, "format_symbol", mode="stub", proved_in="tok", contract="ensures tr_token(r) == tr_token(*wanted_symbol), tok_open(r) ==> tok_open(*current_symbol) || tok_open(*wanted_symbol),",
+           note="proved in unit tok over the trivia sequences (C01.symbol_open_only_if_source); tok_open(t) read as `the trailing trivia of t hold a line comment`"),
         Fn(GEN, "format_end_token", mode="stub"),
         Item(FUN, "enum", "FunctionCallNextNode"),
         Fn(FUN, "format_anonymous_function", mode="stub", contract="ensures anon_fn_id(*r) == anon_fn_id(*anonymous_function), leaf_safe(Expression::Function(r)),"),
@@ -72,16 +73,28 @@ def items():
         Fn("src/formatters/luau.rs", "format_type_assertion_on_new_line", mode="stub", attrs='#[cfg(feature = "luau")]\n',
            contract="ensures type_assertion_id(r) == type_assertion_id(*type_assertion), ta_safe(r), ta_nl(r),",
            note="line facts (class C): `::` is formatted with [newline, indent] appended to its leading trivia"),
-        Fn(EX, "format_binop", mode="stub", contract="ensures binop_id(r) == binop_id(*binop), binop_open(r) ==> binop_open(*binop),",
-           note="line facts: fmt_op! maps the operator token through format_symbol, whose formatted trailing trivia hold a line comment only if the source token's do (proved in unit tok: C01.symbol_open_only_if_source; the wanted symbols carry spaces only); that a source token with a line comment in its trailing trivia is open is the parser's convention (class A)"),
-        Fn(EX, "format_unop", mode="stub", contract="ensures unop_id(r) == unop_id(*unop),"),
+        Fn(EX, "format_binop", contract="""
+    ensures binop_id(r) == binop_id(*binop), //# C05.format_binop_same_operator
+        binop_id(*binop) != OP_SHR ==> tr_token(binop_tok(r)) == symbol_of_text(binop_text(binop_id(*binop))), //# C02.format_binop_prints_the_operator
+        binop_id(*binop) == OP_SHR ==> tok_of(binop_tok(r)) == tok_of(binop_tok(*binop)), //# C02.format_binop_prints_the_operator
+        binop_open(r) ==> binop_open(*binop), //# C01.format_binop_open_only_if_source
+""", edits=[
+            HoistClosure("fmt_op!(ctx, BinOp, binop, shape, {", "|other: &BinOp| ", "BinOp",
+                         "requires !binop_listed(*other), ensures binop_id(r) == binop_id(*other), binop_id(*other) == OP_SHR, tok_of(binop_tok(r)) == tok_of(binop_tok(*other)), binop_open(r) ==> binop_open(*other),", name="unlisted_binop",
+                         why="the operators fmt_op! does not list by name: requires an unlisted operator, ensures what the function ensures"),
+        ]),
+        Fn(EX, "format_unop", contract="""
+    ensures unop_id(r) == unop_id(*unop), //# C05.format_unop_same_operator
+        tr_token(unop_tok(r)) == symbol_of_text(unop_text(unop_id(*unop))), //# C02.format_unop_prints_the_operator
+        unop_open(r) ==> unop_open(*unop), //# C01.format_unop_open_only_if_source
+"""),
         Fn(EX, "removed_parentheses_comments", mode="stub", contract="ensures trivia_lines_ok(r.0@),",
            note="two iterator-adapter chains collecting the comments around both parentheses of a removed pair (C03: bounded witnesses only)"),
         Fn(EX, "check_excess_parentheses", ret="b", contract="""
     requires wf(skel(*internal_expression)),
     ensures
         b ==> forall|p: Pos| #![trigger gamma(context, p)] #![trigger fits(skel(*internal_expression), p)] gamma(context, p) && !(p is PrefixPos) && !(p is AssertOperand) ==> fits(skel(*internal_expression), p), //# C05.cep_sound
-        b ==> !must_keep_parens(skel(*internal_expression)), //# C05.cep_keeps_multivalue_if_binop
+        b ==> !must_keep_parens(skel(*internal_expression)), //# C05.cep_keeps_multivalue
         b && closed_ctx(context) ==> !right_open(skel(*internal_expression)), //# C05.cep_closed
     decreases internal_expression,
 """),
@@ -250,7 +263,7 @@ pub open spec fn index_wf(i: Index) -> bool { match i { Index::Brackets { expres
 
 LABELS = {
     "C05.cep_sound": dict(props=["C05", "C02"], text="check_excess_parentheses returns true only if the bare inner expression fits every position the context stands for"),
-    "C05.cep_keeps_multivalue_if_binop": dict(props=["C05", "C02"], text="calls, `...`, if-expressions and binary operations never lose their parentheses"),
+    "C05.cep_keeps_multivalue": dict(props=["C05", "C02"], text="calls, `...` (they truncate a value list) and if-expressions never lose their parentheses"),
     "C01.double_minus_guard": dict(props=["C01", "C05"], text="the operand handed back for a unary minus is never itself a bare unary minus"),
     "C05.hanging_lhs_context": dict(props=["C05", "C02"], text="the context the hanging path gives to a left operand soundly describes `left operand of this operator` (in particular BinaryLHSExponent for `^`)"),
     "C05.prefix_keeps_parens": dict(props=["C05", "C02"], text="format_prefix (both layout paths): a parenthesised prefix expression keeps its parentheses; operator tree preserved"),
@@ -261,6 +274,12 @@ LABELS = {
     "C01.parenthesise_line_safe": dict(props=["C01", "C02", "C03"], text="parenthesise (kept parentheses): the expression starts a new line when `(` is followed by a line comment, and `)` starts a new line when the expression ends with one"),
     "C05.parenthesise_shape": dict(props=["C05", "C02"], text="parenthesise returns the expression inside one pair of parentheses"),
     "C01.hang_binop_starts_line": dict(props=["C01", "C02"], text="hang_binop: the leading trivia it builds end with [newline, indent] (two real pushes) and the trailing trivia become one space: the operator starts a line and nothing is open behind it"),
+    "C05.format_binop_same_operator": dict(props=["C05", "C02"], text="format_binop (real text, the fmt_op! expansion): every operator is mapped to the same operator; the wildcard arm is unreachable"),
+    "C05.format_unop_same_operator": dict(props=["C05", "C02"], text="format_unop: same"),
+    "C02.format_binop_prints_the_operator": dict(props=["C02", "C05"], text="format_binop: the token printed for an operator is the symbol the Lua manual gives it (`+` for Plus, ...; `>>` keeps its own token)"),
+    "C02.format_unop_prints_the_operator": dict(props=["C02", "C05"], text="format_unop: same (`-`, `not`, `#`, `~`)"),
+    "C01.format_binop_open_only_if_source": dict(props=["C01"], text="format_binop: the formatted operator is open only if the source operator is"),
+    "C01.format_unop_open_only_if_source": dict(props=["C01"], text="format_unop: same"),
     "C01.unary_operand_below_comment": dict(props=["C01"], text="move_operand_below_comment: when the operator is followed by a line comment the operand starts a new line; nothing else changes"),
     "C01.double_minus_parens_line_safe": dict(props=["C01"], text="keep_double_minus_apart: the parentheses it adds do not end up behind a line comment (the operand's trailing comments are moved behind `)`)"),
     "C01.bracket_string_visible_internal": dict(props=["C01"], text="same, for format_expression_internal (induction)"),
